@@ -4,7 +4,7 @@ import re
 
 from ..pycfg import CFG, walk_no_nested, contained, enclosing_trys
 from ..pyflow import ReachingDefs
-from ..source import AnalysisError, find_function, find_class, first_line, src, functions, qualname, enclosing_function
+from ..source import AnalysisError, find_function, find_class, first_line, src, functions, qualname, enclosing_function, regex_call
 
 API = "nemoguardrails/server/api.py"
 STORE_DIR = "nemoguardrails/server/datastore"
@@ -78,8 +78,9 @@ def a_confinement(ctx, t):
                 s = src(n.ast)
                 calls = [x for x in ast.walk(n.ast) if isinstance(x, ast.Call)]
                 for x in calls:
-                    if src(x.func) in ("re.search", "re.match", "re.findall") and len(x.args) == 2 and src(x.args[1]) == raw and isinstance(x.args[0], ast.Constant):
-                        raw_tests.append((n, x.args[0].value, src(x.func)))
+                    rc = regex_call(x, t)
+                    if rc is not None and rc[0] in ("search", "match", "findall") and len(rc[2]) == 1 and src(rc[2][0]) == raw:
+                        raw_tests.append((n, rc[1], "re." + rc[0]))
                 if "commonprefix" in s or "commonpath" in s or ".startswith(" in s or "is_relative_to" in s:
                     cont_tests.append(n)
         okr = False
@@ -278,8 +279,9 @@ def a_instance_cache_key(ctx, t):
     for n in cfg.nodes:
         if n.kind == "test" and isinstance(n.stmt, ast.If) and _raises_valueerror(n.stmt):
             for x in ast.walk(n.ast):
-                if isinstance(x, ast.Call) and src(x.func) == "re.search" and isinstance(x.args[0], ast.Constant):
-                    val_tests.append((n, x.args[0].value))
+                rc = regex_call(x, t)
+                if rc is not None and rc[0] == "search":
+                    val_tests.append((n, rc[1]))
     if how is not None:
         inj, why = True, "the key is %s(config_ids)" % how
     elif sep is not None:
